@@ -45,9 +45,17 @@ type SimReader struct {
 	mode    int // 0 whole, 1 one byte, 2 random chunks, 3 random chunks + data-with-EOF
 	r       *core.Run
 	chunked bool
+	// meanwhile, when set, runs between two reads: another caller's codec operation that overlaps
+	// with this one in time (the reader blocked in between)
+	meanwhile func()
+	reads     int
 }
 
 func (s *SimReader) Read(p []byte) (int, error) {
+	s.reads++
+	if s.meanwhile != nil && s.reads > 1 {
+		s.meanwhile()
+	}
 	if s.errAt >= 0 && s.pos >= s.errAt {
 		return 0, errInjectedIO
 	}
@@ -88,9 +96,14 @@ type SimWriter struct {
 	failAt int // -1: never
 	short  bool
 	failed bool
+	// meanwhile, when set, runs inside every Write (another caller's operation overlapping in time)
+	meanwhile func()
 }
 
 func (w *SimWriter) Write(p []byte) (int, error) {
+	if w.meanwhile != nil {
+		w.meanwhile()
+	}
 	if w.failAt < 0 || len(w.buf)+len(p) <= w.failAt {
 		w.buf = append(w.buf, p...)
 		return len(p), nil
@@ -255,6 +268,25 @@ func c18InnerCut(r *core.Run) {
 	if err != nil || len(full) <= 16 {
 		return
 	}
+	// (UnmarshalFromBytes works on the caller's slice: what it returns must not alias it)
+	{
+		src := append([]byte(nil), full[16:]...)
+		var back eventlog.SP800155Event3
+		if uerr := back.UnmarshalFromBytes(src); uerr == nil {
+			for i := range src {
+				src[i] = 0xEE
+			}
+			if again, merr := back.MarshalToBytes(); merr != nil || !bytes.Equal(again, full) {
+				r.Fail("chunking-changes-result", "SP800155Event3/source-reused", "SP800155Event3: the decoded event changed when the slice it was decoded from was overwritten afterwards (%v)", merr)
+			}
+			// fields own their storage: growing one does not write into another
+			pc := append([]byte(nil), back.PlatformCertLocator.Data...)
+			back.RIMLocator.Data = append(back.RIMLocator.Data, bytes.Repeat([]byte{0xDD}, 24)...)
+			if !bytes.Equal(pc, back.PlatformCertLocator.Data) {
+				r.Fail("chunking-changes-result", "SP800155Event3/fields-share-storage", "SP800155Event3: appending to the decoded RIM locator changed the decoded platform-certificate locator")
+			}
+		}
+	}
 	k := []int{16, 17, 18, 20, 36, len(full) - 1}[r.Intn(6, "inner-cut-at")]
 	if k >= len(full) || k < 16 {
 		return
@@ -345,6 +377,55 @@ func runC18(r *core.Run) {
 	}
 	if back, err := enc(base); err != nil || !bytes.Equal(back, full) {
 		r.Fail("truncation-accepted", name+"/roundtrip", "%s: decode(encode(v)) does not re-encode to encode(v) (%v)", name, err)
+	}
+	// two callers at once: while this value is being decoded from a reader that delivers it in
+	// pieces (or encoded into a writer), ANOTHER value of the same type is encoded and decoded in
+	// between. The codecs share nothing, so neither notices the other.
+	if r.Chance(40, "overlapping-operations?") {
+		save, saveBad := strLens, badDigests
+		other := gen()
+		strLens, badDigests = save, saveBad
+		if ob, oerr := enc(other); oerr == nil {
+			disturbed := false
+			meanwhile := func() {
+				y := fresh()
+				if err := y.Unmarshal(bytes.NewReader(ob)); err != nil {
+					disturbed = true
+					return
+				}
+				if back, err := enc(y); err != nil || !bytes.Equal(back, ob) {
+					disturbed = true
+				}
+			}
+			sr := &SimReader{data: full, end: len(full), errAt: -1, mode: 1, r: r, meanwhile: meanwhile}
+			got, err := decode(sr)
+			back, eerr := enc(got)
+			r.Eval(name+"|overlapping-decode", true)
+			if err != nil || eerr != nil || !bytes.Equal(back, full) || disturbed {
+				r.Fail("chunking-changes-result", name+"/overlapping-operations", "%s: decoding from a reader that delivers byte by byte, with another value of the type encoded and decoded between the reads, gives another value (or disturbs the other operation: %v) (%v, %v)", name, disturbed, err, eerr)
+			}
+			sw := &SimWriter{failAt: -1, meanwhile: meanwhile}
+			werr := v.Marshal(sw)
+			if werr != nil || !bytes.Equal(sw.buf, full) || disturbed {
+				r.Fail("chunking-changes-result", name+"/overlapping-operations", "%s: encoding into a writer during whose writes another value of the type is encoded and decoded gives other bytes (or disturbs the other operation: %v) (%v)", name, disturbed, werr)
+			}
+			r.Probe("overlapping-operations")
+		}
+	}
+	// the decoded value is the caller's: it does not change when the buffer it was decoded from is
+	// reused afterwards
+	{
+		src := append([]byte(nil), full...)
+		x := fresh()
+		if err := x.Unmarshal(bytes.NewBuffer(src)); err == nil {
+			for i := range src {
+				src[i] = 0xEE
+			}
+			if back, err := enc(x); err != nil || !bytes.Equal(back, full) {
+				r.Fail("chunking-changes-result", name+"/source-reused", "%s: the decoded value changed when the buffer it was decoded from was overwritten afterwards (%v)", name, err)
+			}
+		}
+		r.Eval(name+"|source-reused", true)
 	}
 	// a long-lived destination: decoding into a value that already holds another decoded record
 	// gives what decoding into a fresh one gives
